@@ -30,7 +30,9 @@ POOL = [
 DOTINT = [(b'.5', 'dec', 'dot'), (b'+.5', 'dec', 'dot'), (b'-.25', 'dec', 'dot')]
 # fragments that are not program data; unfinished blocks are left out on purpose: "#12a" + NL is a complete block that
 # swallows the terminator, "#3" an incomplete one -- both mean "more input expected", not "malformed"
-MALFORMED = [b'@', b'"unterminated', b'$', b'#H', b'(1', b"'a", b'1 2', b'1e+', b'a b', b'"a"b', b'(1))', b'1,,2', b'#Q8', b'#0', b'1 $', b'%']
+MALFORMED = [b'@', b'"unterminated', b'$', b'#H', b'(1', b"'a", b'1 2', b'1e+', b'a b', b'"a"b', b'(1))', b'1,,2', b'#Q8', b'#0', b'1 $', b'%',
+             # bytes above 0x7f are no white space and no program data (a pasted no-break space, Latin-1, 0xff)
+             b'1\xc2\xa0', b'\xa05', b'7\xff', b'\x80', b'\xa0']
 READERS = ['PI32', 'PU32', 'PI64', 'PU64', 'PBOOL', 'PCHOICE', 'PCHARS', 'PTEXT', 'PBLOCK', 'PD', 'PF', 'PNUM']
 
 
@@ -349,3 +351,30 @@ def streams(tier, rng):
             return [('input-retval', 'input call returned %s, expected %s (overrun %s, last message clean %s)' % (r[0], exp, over, lastgood))]
         return []
     yield {'name': 'retval', 'cases': cases, 'project': project, 'oracle': orc3, 'nontrivial': lambda c, o: c if ' E' in o else None}
+
+    # a handler that reports its OWN error -- a device-defined positive code as well as a negative one -- and then fails or leaves
+    # parameters unread: exactly that error is queued (no -200, no -108 on top) and the input call returns false
+    ocases, oinfo = [], {}
+    for code in (100, 5, 200, 32767, 1, -222, -100, -310):
+        for script in ('PUSH:%d;RETERR', 'PUSH:%d', 'PI32:1;PUSH:%d;RETERR', 'PI32:1;PUSH:%d', 'PI32:0;PUSH:%d;RETERR'):
+            for data in (b'', b' 1', b' 1,2', b' 1, 2 ,3'):
+                sc = script % code
+                if sc.startswith('PI32:1') and not data:
+                    continue
+                c = gen.scenario(256, 16, [(1, b'CMD', sc), (2, b'OTHer', '-')], [('I', b'CMD' + data + b'\n')])
+                ocases.append(c)
+                oinfo[c] = code
+
+    def oorc(case, out):
+        if out.startswith('X') or ' X' in out or case not in oinfo:
+            return []
+        evs = vf.events(out)
+        evs = evs[:evs.index('|')] if '|' in evs else evs
+        errs = [int(e[1:]) for e in evs if e[0] == 'E' and e[1:].lstrip('-').isdigit()]
+        r = [e for e in evs if e[0] == 'R']
+        if errs != [oinfo[case]]:
+            return [('own-error', 'a handler that reported error %d itself: errors raised %r, expected exactly that one' % (oinfo[case], errs))]
+        if r and r[0] != 'R0':
+            return [('input-retval', 'the message raised error %d but the input call returned %s' % (oinfo[case], r[0]))]
+        return []
+    yield {'name': 'own-error', 'cases': ocases, 'project': project, 'oracle': oorc, 'nontrivial': lambda c, o: c}
